@@ -447,7 +447,11 @@ class IASolverBaseClass:  # pylint: disable=R0902
         if self._P is None:
             return np.ones(self.K, dtype=float)
 
-        return self._P
+        # A copy: if the internal array was handed out, an augmented
+        # assignment such as `solver.P *= 2` would change it in place
+        # before the setter can see that the power is different (and the
+        # power-scaled precoders and filters would not be invalidated)
+        return self._P.copy()
 
     @P.setter
     def P(self, value: Optional[NumberOrArray]) -> None:
